@@ -3,6 +3,9 @@ import StorageModel.C04.SpecProofs
 import StorageModel.C04.OldRoute
 import StorageModel.C04.MarksProofs
 import StorageModel.C04.TierProofs
+import StorageModel.C04.GenProofs
+import StorageModel.C04.GenInv
+import StorageModel.C04.GenMono
 /-
   C04 — Foreign keys: targets exist, back-references exact, delete restricts or cascades.
 
@@ -761,5 +764,130 @@ theorem chain_spec_agrees (σ : TSchema) (s : TSt) (id : Bytes) :
   tDelete0_agrees_spec σ s id
 
 end Chain
+
+/-! ### Round 14 — the schema-parametric model (`C04/Gen.lean`): EVERY schema (any number of stores, any list of fk
+    declarations: index / constraint, nullable / not, restrict / cascade, self references, cycles, several
+    declarations between two stores, any registration order), every state, every in-progress map.
+    Proved here: the context's map is balanced and a reused context changes nothing; a refused transaction changes
+    nothing; restrict refuses (no cascade into the store); creates / updates keep `fk_target_exists`.  NOT proved for
+    the generic model (kept as full statements; decided per run by the correspondence against the spec oracle
+    `gSpecOutcomes`): back-reference exactness, the delete step of `fk_target_exists`, refused-or-exact for arbitrary schemas — they remain
+    theorems for the two instance schemas (`fk_inv_reachable`, `cascade_exact`, `chain_delete_refused_or_exact`). -/
+section Generic
+
+/-- after ANY operation on ANY schema (successful, refused, failed part-way inside a nested cascade) the in-progress
+    map of the MutateContext is what it was -/
+theorem gen_cascade_marks_balanced (σ : GSchema) (m : GMarks) (s : GSt) (op : GOp) : (gApply σ m s op).2 = m :=
+  gApply_marks σ m s op
+
+/-- `DeleteById` at any nesting depth -/
+theorem gen_delete_marks_balanced (σ : GSchema) (n : Nat) (m : GMarks) (s : GSt) (t : Nat) (id : Bytes) :
+    (gDelete σ n m s t id).2 = m :=
+  gDelete_marks σ n m s t id
+
+/-- a whole history on ONE reused MutateContext reaches the state of the same history with a fresh context per
+    transaction, and the map is empty at the end -/
+theorem gen_context_reuse_exact (σ : GSchema) (h : List (List GOp)) (s : GSt) :
+    gRunHistory σ true h s [] = gRunHistory σ false h s [] ∧ (gRunHistory σ true h s []).2 = [] :=
+  ⟨gRunHistory_reuse σ h s, gRunHistory_marks_empty σ true h s⟩
+
+/-- a refused transaction (restrict, missing target, null, a refusal inside a cascade) changes nothing -/
+theorem gen_refused_changes_nothing (σ : GSchema) (m : GMarks) (s : GSt) (tx : List GOp) (e : Nat × Err)
+    (h : (gRunTx σ m s tx).1.2 = some e) : (gRunTx σ m s tx).1.1 = s :=
+  gRunTx_refused_unchanged σ m s tx e h
+
+/-- FULL STATEMENT, not proved for arbitrary schemas: a delete is refused (reference-exists, nothing changes) or
+    removes exactly the cascade closure; decided on every generated history by the correspondence
+    (implementation = model = `gSpecApply`) -/
+def gen_delete_refused_or_exact_fullStatement : Prop :=
+  ∀ (σ : GSchema) (s : GSt) (t : Nat) (id : Bytes), s.live t id = true →
+    match (gDelete σ (gFuel s) [] s t id).1 with
+    | .error e => e = .refExists ∧ (gBlockers σ s (gClosure σ s t id) false = true ∨ gBlockers σ s (gClosure σ s t id) true = true)
+    | .ok s' => ∀ t' x, s'.ent t' x = if (gClosure σ s t id).contains (t', x) then none else s.ent t' x
+
+/-- restrict refuses — EVERY schema: no cascading declaration targets store `t`, a restrict declaration `i` does,
+    and a referrer remains (`GBlocks`: listed in the back-reference set of the fk index, other than the entity
+    itself; or a row referring to it through the fk constraint) ⇒ `DeleteById` = reference-exists, the map is
+    untouched, and (`gen_refused_changes_nothing`) the transaction leaves the state as it was -/
+theorem gen_restrict_refuses (σ : GSchema) (n : Nat) (m : GMarks) (s : GSt) (t : Nat) (id : Bytes)
+    (i : Nat) (d : GDecl) (r : Bytes) (hlive : s.live t id = true)
+    (hdecl : (i, d) ∈ gDecls σ) (ht : d.tgt = t) (hd : d.cascade = false)
+    (hnone : ∀ p ∈ gDecls σ, p.2.tgt = t → p.2.cascade = false)
+    (hb : GBlocks s i d id r) :
+    gDelete σ (n + 1) m s t id = (.error .refExists, m) ∧
+      (gRunTx σ m s [GOp.delete t id]).1 = (s, some (0, Err.refExists)) := by
+  have h := gDelete_restrict_refuses σ (gFuel s - 1) m s t id i d r hlive hdecl ht hd hnone hb
+  refine ⟨gDelete_restrict_refuses σ n m s t id i d r hlive hdecl ht hd hnone hb, ?_⟩
+  have hf : gFuel s = (gFuel s - 1) + 1 := by simp [gFuel]
+  simp only [gRunTx, gRunOps, gApply]
+  rw [hf, h]
+
+/-- a successful create leaves every reference of the new entity pointing at an existing entity (contrapositive: a
+    missing target ⇒ the create fails) — every schema -/
+theorem gen_write_requires_target (σ : GSchema) (s : GSt) (t : Nat) (id : Bytes) (row : GRow) (s' : GSt)
+    (h : gCreate σ s t id row = .ok s') :
+    ∀ p ∈ gDecls σ, p.2.src = t → evalVal (row p.1) ≠ [] → s'.live p.2.tgt (evalVal (row p.1)) = true :=
+  gCreate_targets σ s t id row s' h
+
+/-- `fk_target_exists` is preserved by every successful create / update / patch update, every schema, any checker -/
+theorem gen_fk_target_exists_write (σ : GSchema) (m : GMarks) (s s' : GSt) (op : GOp)
+    (hop : ∀ t id, op ≠ GOp.delete t id) (h : (gApply σ m s op).1 = .ok s') (hinv : GTargetInv σ s) :
+    GTargetInv σ s' := by
+  cases op with
+  | create t id row => exact gCreate_targetInv σ s t id row s' h hinv
+  | update t id sel row => exact gUpdate_targetInv σ s t id sel row s' h hinv
+  | delete t id => exact absurd rfl (hop t id)
+
+/-- FULL STATEMENT (the delete step is not proved for arbitrary schemas) -/
+def gen_fk_target_exists_fullStatement : Prop :=
+  ∀ (σ : GSchema) (reuse : Bool) (h : List (List GOp)), GTargetInv σ (gRunHistory σ reuse h GSt.empty []).1
+
+/-- FULL STATEMENT: every back-reference set of every fk index is exactly the set of referrers, after any history -/
+def gen_backref_inv_fullStatement : Prop :=
+  ∀ (σ : GSchema) (reuse : Bool) (h : List (List GOp)) (i : Nat) (d : GDecl) (y r : Bytes),
+    (i, d) ∈ gDecls σ → d.index = true →
+    let s := (gRunHistory σ reuse h GSt.empty []).1
+    s.live d.tgt y = true → (r ∈ s.back i y ↔ (s.live d.src r = true ∧ gIsRef s i d y r = true))
+
+/-! instances: the chain of round 9 and the A/B stores of the first model as schemas -/
+
+theorem schemaChain_restrict_refuses (n1 c2 n2 : Bool) (n : Nat) (m : GMarks) (s : GSt) (o item : Bytes)
+    (hlive : s.live 0 o = true)
+    (hb : gIsRef s 0 ⟨1, 0, false, n1, false⟩ o item = true ∧ (1, item) ∈ s.ids) :
+    gDelete (schemaChain false n1 c2 n2) (n + 1) m s 0 o = (.error .refExists, m) := by
+  refine gDelete_restrict_refuses _ n m s 0 o 0 ⟨1, 0, false, n1, false⟩ item hlive ?_ rfl rfl ?_ ?_
+  · simp [gDecls, schemaChain, List.range_succ]
+  · intro p hp
+    simp [gDecls, schemaChain, List.range_succ] at hp
+    rcases hp with rfl | rfl <;> simp
+  · unfold GBlocks; simpa using hb
+
+theorem schemaAB_restrict_refuses (depNullable : Bool) (n : Nat) (m : GMarks) (s : GSt) (b r : Bytes)
+    (hlive : s.live 1 b = true) (hr : r ∈ s.back 0 b) (hne : r ≠ b) :
+    gDelete (schemaAB false depNullable) (n + 1) m s 1 b = (.error .refExists, m) := by
+  refine gDelete_restrict_refuses _ n m s 1 b 0 ⟨0, 1, true, true, false⟩ r hlive ?_ rfl rfl ?_ ?_
+  · simp [gDecls, schemaAB, List.range_succ]
+  · intro p hp
+    simp [gDecls, schemaAB, List.range_succ] at hp
+    rcases hp with rfl | rfl | rfl <;> simp
+  · unfold GBlocks; simp [hr, hne]
+
+theorem schemaAB_marks_balanced (c nl : Bool) (m : GMarks) (s : GSt) (op : GOp) :
+    (gApply (schemaAB c nl) m s op).2 = m := gApply_marks _ m s op
+
+
+/-- "… and nothing else", row level, EVERY schema: after a successful `DeleteById` (any cascade, any nesting depth, any
+    map) every row of every store is exactly as it was or gone -/
+theorem gen_delete_only_removes (σ : GSchema) (n : Nat) (m : GMarks) (s : GSt) (t : Nat) (id : Bytes) (s' : GSt) (m' : GMarks)
+    (h : gDelete σ n m s t id = (.ok s', m')) : ∀ t' x, s'.ent t' x = s.ent t' x ∨ s'.ent t' x = none :=
+  gDelete_onlyRemoves σ n m s t id s' m' h
+
+/-- … and the deleted entity is gone -/
+theorem gen_delete_removes_target (σ : GSchema) (n : Nat) (m : GMarks) (s : GSt) (t : Nat) (id : Bytes) (s' : GSt)
+    (m' : GMarks) (h : gDelete σ n m s t id = (.ok s', m')) : s'.ent t id = none :=
+  gDelete_removes_self σ n m s t id s' m' h
+
+
+end Generic
 
 end StorageModel.Properties.C04
